@@ -52,10 +52,10 @@ class CSSCharsetRule(cssrule.CSSRule):
         super().__init__(parentRule=parentRule, parentStyleSheet=parentStyleSheet)
         self._atkeyword = '@charset'
 
+        self._encoding = None
         if encoding:
+            # stays None if encoding is not acceptable
             self.encoding = encoding
-        else:
-            self._encoding = None
 
         self._readonly = readonly
 
@@ -156,7 +156,9 @@ class CSSCharsetRule(cssrule.CSSRule):
                 # is the codec that reads this very rule
                 if not getattr(info, '_is_text_encoding', True) or info.name == 'css':
                     raise LookupError(encoding)
-            except LookupError:
+                # "undefined" is a codec which refuses any text
+                ''.encode(encoding)
+            except (LookupError, UnicodeError):
                 self._log.error(
                     'CSSCharsetRule: Unknown (Python) encoding %r.' % encoding
                 )
